@@ -2,6 +2,7 @@
 stable digests.  bool != int, str != bytes != bytearray, floats by bit
 pattern, dict insertion order preserved in dumps (it matters for C12) but
 ignored by digest(..., ordered=False)."""
+import array as _array
 import datetime
 import decimal
 import hashlib
@@ -23,6 +24,40 @@ class Opaque:
 
     def __hash__(self):
         return hash(('Opaque', self.label))
+
+
+def _sub_name(v):
+    """Name of the generator's subclass (vmon.gen.values.Sub*, OrderedDict,
+    defaultdict) that v is an instance of, for witnesses."""
+    n = type(v).__name__
+    if n in ('SubDict', 'SubList', 'SubInt', 'SubStr', 'SubFloat',
+             'OrderedDict', 'defaultdict') and \
+            type(v) not in (dict, list, int, str, float):
+        return n
+    return None
+
+
+def dump_case(v):
+    """dump() for witnesses: additionally records which generated subclass a
+    value was an instance of, so that a replay rebuilds it (digests and result
+    comparisons use dump(), where a subclass instance equals its base value)."""
+    n = _sub_name(v)
+    if n is not None:
+        if isinstance(v, dict):
+            return {'$sub': n, 'v': {'$d': [[dump_case(k), dump_case(x)]
+                                            for k, x in v.items()]}}
+        if isinstance(v, list):
+            return {'$sub': n, 'v': [dump_case(x) for x in v]}
+        base = int(v) if isinstance(v, int) else \
+            float(v) if isinstance(v, float) else str.__str__(v)
+        return {'$sub': n, 'v': dump(base)}
+    if type(v) is list:
+        return [dump_case(x) for x in v]
+    if type(v) is tuple:
+        return {'$t': [dump_case(x) for x in v]}
+    if type(v) is dict:
+        return {'$d': [[dump_case(k), dump_case(x)] for k, x in v.items()]}
+    return dump(v)
 
 
 def dump(v):
@@ -47,6 +82,8 @@ def dump(v):
         return {'$b': v.hex()}
     if isinstance(v, bytearray):
         return {'$ba': bytes(v).hex()}
+    if isinstance(v, _array.array):
+        return {'$arr': v.typecode, 'hex': v.tobytes().hex()}
     if isinstance(v, memoryview):
         try:
             return {'$mv': v.tobytes().hex(), 'fmt': v.format,
@@ -87,6 +124,18 @@ def load(j):
     if isinstance(j, list):
         return [load(x) for x in j]
     if isinstance(j, dict):
+        if '$sub' in j:
+            import collections
+            from .gen import values as gv
+            base = load(j['v'])
+            n = j['$sub']
+            if n == 'OrderedDict':
+                return collections.OrderedDict(base)
+            if n == 'defaultdict':
+                d = collections.defaultdict(list)
+                d.update(base)
+                return d
+            return getattr(gv, n)(base)
         if '$ix' in j:
             return int(j['$ix'], 16)
         if '$i' in j:
@@ -99,6 +148,10 @@ def load(j):
             return bytes.fromhex(j['$b'])
         if '$ba' in j:
             return bytearray(bytes.fromhex(j['$ba']))
+        if '$arr' in j:
+            a = _array.array(j['$arr'])
+            a.frombytes(bytes.fromhex(j['hex']))
+            return a
         if '$mv' in j:
             mv = memoryview(bytes.fromhex(j['$mv']))
             try:
